@@ -371,7 +371,7 @@ func tpStructExpect(p *wire.TransportParameters, pers protocol.Perspective) *wir
 	q := *p
 	q.ClientOverride = nil
 	q.MaxIdleTimeout = time.Duration(int64(p.MaxIdleTimeout) / tpMs * tpMs)
-	if q.MaxIdleTimeout < 5*time.Second {
+	if q.MaxIdleTimeout != 0 && q.MaxIdleTimeout < 5*time.Second { // 0 = no idle timeout (RFC 9000 18.2)
 		q.MaxIdleTimeout = 5 * time.Second
 	}
 	q.MaxAckDelay = time.Duration(int64(p.MaxAckDelay) / tpMs * tpMs)
@@ -423,6 +423,7 @@ func tpTicketExpect(p *wire.TransportParameters) *wire.TransportParameters {
 type tpVerdict struct {
 	key, why string // non-empty key: the input must be rejected
 	expect   *wire.TransportParameters
+	zeroIdle bool // max_idle_timeout sent as an explicit 0 (= no idle timeout, like an absent parameter)
 	wrapIdle bool // max_idle_timeout does not fit a time.Duration
 	wrapMin  bool // min_ack_delay does not fit a time.Duration
 }
@@ -473,7 +474,9 @@ func tpJudge(in []byte, pers protocol.Perspective, ticket bool) tpVerdict {
 				if val > uint64(math.MaxInt64)/uint64(tpMs) {
 					v.wrapIdle = true
 				}
-				if d < int64(5*time.Second) {
+				if val == 0 {
+					v.zeroIdle = true
+				} else if d < int64(5*time.Second) {
 					d = int64(5 * time.Second)
 				}
 				e.MaxIdleTimeout = time.Duration(d)
@@ -660,7 +663,7 @@ func (g *tpGen) emitParse(in []byte, pers protocol.Perspective, ticket bool, buc
 	case v.key == "" && cls == 0:
 		if !wire.VerifTParamsEqual(p, v.expect) {
 			q := *p
-			if v.wrapIdle {
+			if v.wrapIdle || (v.zeroIdle && p.MaxIdleTimeout == 5*time.Second) {
 				q.MaxIdleTimeout = v.expect.MaxIdleTimeout
 			}
 			if v.wrapMin {
@@ -669,6 +672,9 @@ func (g *tpGen) emitParse(in []byte, pers protocol.Perspective, ticket bool, buc
 			if wire.VerifTParamsEqual(&q, v.expect) {
 				if v.wrapIdle && p.MaxIdleTimeout != v.expect.MaxIdleTimeout {
 					g.finding("tparams/idle-timeout-wrap", fmt.Sprintf("max_idle_timeout beyond 2^63 ns decodes to %s (int64 wrap-around) instead of saturating", p.MaxIdleTimeout), detail)
+				}
+				if v.zeroIdle && p.MaxIdleTimeout != 0 {
+					g.finding("tparams/idle-timeout-zero", fmt.Sprintf("an explicit max_idle_timeout of 0 decodes to %s, an absent one to 0s (RFC 9000 18.2: both disable the idle timeout)", p.MaxIdleTimeout), detail)
 				}
 				if v.wrapMin && *p.MinAckDelay != *v.expect.MinAckDelay {
 					g.finding("tparams/min-ack-delay-wrap", fmt.Sprintf("min_ack_delay beyond 2^63 ns decodes to %s", *p.MinAckDelay), detail)
@@ -1506,7 +1512,7 @@ func (g *tpGen) populateCases(n int) {
 		}
 		// what the peer decodes is what the struct holds (the fields the connection consults)
 		mit := tp.MaxIdleTimeout
-		if mit < 5*time.Second && tpHas(spec, tpMIT) {
+		if mit != 0 && mit < 5*time.Second && tpHas(spec, tpMIT) {
 			mit = 5 * time.Second
 		}
 		if q.InitialMaxData != tp.InitialMaxData || q.InitialMaxStreamDataBidiLocal != tp.InitialMaxStreamDataBidiLocal ||
